@@ -1528,3 +1528,66 @@ def r6_9(rep):
         any(x is mk[0] for x in b.walk(tail))
     rep.check(direct, "result-is-the-query", "the result is `Ok(Layout::new(..))`" if direct else
               "the function's result is `%s`, not the layout it just computed" % b.canon(tail, 3)[:80], b.loc(b.root))
+
+
+FALLBACK_LAYOUT_ARMS = {
+    # kind -> what the fallback may be computed from when libclang recorded nothing
+    "Comp": "the record's own members (CompInfo::layout)",
+    "Array": "a zero-length array: size 0, the element's alignment",
+    "Pointer": "the target's pointer size",
+    "ResolvedTypeRef": "the very type the reference resolves to",
+}
+
+
+@RULES.rule("R6.10", "a type without a recorded layout never borrows the layout of a different type", floor=4)
+def r6_10(rep):
+    """`Type::layout` returns libclang's numbers when they were recorded; otherwise a few kinds have a fallback computed from the type
+    itself.  Every instantiation gets a size / alignment assertion from whatever this accessor returns (R6.2, R6.3).  A fallback that
+    forwards an instantiation to its template DEFINITION asserts numbers that are not libclang's and not the instantiation's
+    (`CompInfo::layout` of a union template skips members of type `T`): `Slot<Big>` was asserted as size 1 in a seeded change.  The set
+    of kinds with a fallback is frozen with the reason for each."""
+    from hir import pat_variants as _pv
+    prog = rep.prog
+    b = rep.need(prog.fn("ir::ty::Type::layout"), "ir::ty::Type::layout")
+    ms = [m for m in b.walk() if m["k"] == "Match" and "Type::kind" in b.canon(m["scrut"], 3)]
+    rep.need(ms, "the match over the kind in Type::layout")
+    for a in ms[0]["arms"]:
+        vs = {v.split("::")[-1] for v in _pv(a["pat"])}
+        body = b.canon(a["body"], 3)
+        is_none = body.split("::")[-1] == "None"
+        for k in sorted(vs):
+            if k == "_":
+                rep.check(is_none, "layout-fallback:catch-all", "every other kind has no layout unless libclang recorded one", b.loc(a["body"]))
+                continue
+            ok = k in FALLBACK_LAYOUT_ARMS or is_none
+            rep.check(ok, "layout-fallback:" + k, FALLBACK_LAYOUT_ARMS.get(k, "no fallback") if ok else
+                      "`TypeKind::%s` gets a fallback layout `%s` although libclang recorded none for it: assertions for such types then check "
+                      "numbers that belong to another type" % (k, body[:80]), b.loc(a["body"]))
+
+
+@RULES.rule("R6.11", "a type item made for a use is located where it is used", floor=1)
+def r6_11(rep):
+    """`--blocklist-file` / `--allowlist-file` match the location stored with an item.  The items `Item::from_ty_with_id` makes for
+    template instantiations exist so that the instantiation's layout assertion can be emitted; they carry the location of the cursor
+    that USES the type.  Giving them the location of the type's declaration (the implicit specialisation sits in the template's header)
+    makes `--blocklist-file '.*tmpl\\.hpp'` swallow the assertions of `Pair<int>` while `Pair<c_int>` is still named (seeded change)."""
+    prog = rep.prog
+    b = rep.need(prog.fn("ir::item::Item::from_ty_with_id"), "Item::from_ty_with_id")
+    locp = next((p_ for p_ in b.params if p_.get("name") == "location" or "clang::Cursor" in (prog.types[p_["t"]] if p_.get("t") is not None else "")), None)
+    rep.need(locp, "the cursor parameter of Item::from_ty_with_id")
+    news = [c for c in b.calls(lambda x: x["k"] == "Call" and (x.get("callee") or "").endswith("item::Item::new"))]
+    rep.need(news, "Item::new in from_ty_with_id")
+    n = 0
+    for c in news:
+        for a in c["args"]:
+            if "SourceLocation" not in (b.ty(a) or ""):
+                continue
+            n += 1
+            src = b.canon(a, 8)
+            for x in b.walk(a):
+                if x["k"] == "Local" and b.local_init(x["id"]) is not None and x["id"] != locp.get("id"):
+                    src += " " + b.canon(b.local_init(x["id"]), 8)
+            ok = "clang::Cursor::location(param:%s)" % locp.get("name") in src and "declaration" not in src
+            rep.check(ok, "item-located-at-use", "`Some(location.location())`" if ok else
+                      "the item's location is `%s`: file-based block/allowlisting then treats the use like the declaration" % src[:90], b.loc(a))
+    rep.need(n >= 1, "the SourceLocation argument of Item::new")
